@@ -7,7 +7,8 @@ Gemini and Titan protocol requests with a shared base class.
 from dataclasses import dataclass, field
 from typing import TYPE_CHECKING
 
-from ..utils.url import ParsedURL, parse_url, validate_url
+from ..utils.url import ParsedURL, parse_url
+from .constants import MAX_REQUEST_SIZE
 
 if TYPE_CHECKING:
     from cryptography.x509 import Certificate
@@ -90,7 +91,14 @@ class GeminiRequest(BaseRequest):
             >>> request.raw_url
             'gemini://example.com/'
         """
-        validate_url(line)
+        # A request line is limited as it was received (1024 bytes including
+        # CRLF); validate_url() would additionally limit the normalized form,
+        # which only matters for URLs that are about to be sent
+        line_size = len(line.encode("utf-8"))
+        if line_size + 2 > MAX_REQUEST_SIZE:
+            raise ValueError(
+                f"URL too long: {line_size} bytes (max {MAX_REQUEST_SIZE - 2} bytes)"
+            )
         parsed = parse_url(line)
 
         return cls(raw_url=line, parsed_url=parsed)
